@@ -376,6 +376,13 @@ fn span_expect(kind: usize, v: &Vals) -> (String, BTreeMap<String, Exp>) {
             m.insert("f\"q".into(), Exp::Str(v.s.clone()));
             "odd_fields"
         }
+        4 => {
+            // names that merely start with "log" (the `log.` prefix of bridged records is something else)
+            m.insert("login".into(), Exp::Str(v.s.clone()));
+            m.insert("logger".into(), Exp::Str(v.s2.clone()));
+            m.insert("logged_in".into(), Exp::B(v.b));
+            "log_named"
+        }
         _ => "bad_span",
     };
     (name.to_string(), m)
@@ -585,7 +592,7 @@ impl Engine for JsonEngine {
                     json!({"t": t, "op": "event", "kind": kind, "vals": gen_vals(&mut rng)})
                 }
                 40..=54 => {
-                    let kind = if rng.chance(1, 10) && !f19_guard { 3 } else { rng.below(3) };
+                    let kind = if rng.chance(1, 10) && !f19_guard { 3 } else { *rng.pick(&[0u64, 1, 2, 4]) };
                     json!({"t": t, "op": "span", "slot": slot, "kind": kind, "vals": gen_vals(&mut rng)})
                 }
                 55..=69 => json!({"t": t, "op": "enter", "slot": slot}),
